@@ -118,7 +118,9 @@ impl Scenario for C17 {
             _ => SchedKind::RoundRobin,
         };
         let seed = b.ev_seed();
-        b.push(Step::Threads { spec: ThreadSpec { node: 0, local: fk.local, secret: fk.secret, public: fk.public, pke_public: fk.pke_public, pke_secret: fk.pke_secret, scripts, sched, seed } });
+        // two thirds of the aws-lc episodes are scheduled at every FFI call of every operation as well
+        let fine = bk == Bk::V3Lc && b.rng.chance(2, 3);
+        b.push(Step::Threads { spec: ThreadSpec { node: 0, local: fk.local, secret: fk.secret, public: fk.public, pke_public: fk.pke_public, pke_secret: fk.pke_secret, scripts, sched, seed, fine } });
         b.finish()
     }
 }
